@@ -1153,6 +1153,114 @@ class PairTr(VecTr):
         return VecTr.block(self, stmts, env, kind, target)
 
 
+# --------------------------------------------------------------------------- data flow of NeuralStateBase.save (C11)
+def extract_save_dataflow(fn):
+    """save(self, location, metadata=None) as a function to `option fcontent` (None = ValueError before anything is written,
+    Some d = the record handed to torch.save).  Accepted statements, in any order that type-checks, fail-closed otherwise:
+        metadata = dict(metadata) if metadata else {}           the caller's dict is COPIED (md_copy)
+        if hasattr(self, "unitary_dict"): <block>               on s_ud st
+        if <key> in <dict>.keys(): raise ValueError(...)        (also `<key> in <dict>`)
+        <dict>[<key>] = self.unitary_dict                       dict_set
+        for net in self.networks: if net in <dict>.keys(): raise ValueError(...)
+        data = {net: getattr(self, net).state_dict() for net in self.networks}
+        <dict>.update(**<dict>)  /  <dict>.update(<dict>)       dict_update
+        torch.save(<dict>, location)                            the sink: must be the last statement on its path
+    Dictionaries are the model's insertion-ordered association lists; "unitary_dict" is K_UD, a network name is its key."""
+    params = [a.arg for a in fn.args.args]
+    if params != ["self", "location", "metadata"] or fn.args.vararg or fn.args.kwarg or fn.args.kwonlyargs:
+        raise Untranslatable("signature of save: %s" % params)
+    if len(fn.args.defaults) != 1 or not (isinstance(fn.args.defaults[0], ast.Constant) and fn.args.defaults[0].value is None):
+        raise Untranslatable("default of metadata")
+    cnt = [0]
+
+    def key(node, env):
+        if isinstance(node, ast.Constant) and node.value == "unitary_dict":
+            return "K_UD"
+        if isinstance(node, ast.Name) and env.get(node.id, (None, None))[1] == "key":
+            return env[node.id][0]
+        raise Untranslatable("dictionary key %s" % ast.unparse(node))
+
+    def dct(node, env):
+        if isinstance(node, ast.Name) and env.get(node.id, (None, None))[1] == "dict":
+            return env[node.id][0]
+        raise Untranslatable("not a known dictionary: %s" % ast.unparse(node))
+
+    def test(node, env):
+        if isinstance(node, ast.Compare) and len(node.ops) == 1 and isinstance(node.ops[0], ast.In):
+            d = node.comparators[0]
+            if isinstance(d, ast.Call) and isinstance(d.func, ast.Attribute) and d.func.attr == "keys" and not d.args and not d.keywords:
+                d = d.func.value
+            return "(has_key %s %s)" % (key(node.left, env), dct(d, env))
+        raise Untranslatable("test %s" % ast.unparse(node))
+
+    def is_raise(body):
+        return len(body) == 1 and isinstance(body[0], ast.Raise) and isinstance(body[0].exc, ast.Call) \
+            and ast.unparse(body[0].exc.func) == "ValueError"
+
+    def bind(env, name, e, K):
+        cnt[0] += 1
+        v = "%s_%d" % (name, cnt[0])
+        env2 = dict(env); env2[name] = (v, "dict")
+        return "(let %s : fcontent := %s in\n  %s)" % (v, e, K(env2))
+
+    def no_end(env):
+        raise Untranslatable("a path ends without torch.save")
+
+    def block(stmts, env, end=no_end):
+        if not stmts:
+            return end(env)
+        st, rest = stmts[0], stmts[1:]
+        K = lambda e: block(rest, e, end)
+        if isinstance(st, ast.Expr) and isinstance(st.value, ast.Constant) and isinstance(st.value.value, str):
+            return K(env)
+        src = ast.unparse(st)
+        if src == "metadata = dict(metadata) if metadata else {}":
+            if env["metadata"][1] != "raw":
+                raise Untranslatable("metadata copied twice")
+            return bind(env, "metadata", "(md_copy md0)", K)
+        if isinstance(st, ast.If) and not st.orelse and ast.unparse(st.test) == "hasattr(self, 'unitary_dict')":
+            if env.get("#u"):
+                raise Untranslatable("nested unitary_dict guards")
+            env_u = dict(env); env_u["#u"] = True
+            def leave(e):
+                e2 = dict(e); e2.pop("#u", None)
+                return block(rest, e2, end)
+            return "(match s_ud st with\n  | Some u => %s\n  | None => %s\n  end)" % (block(list(st.body), env_u, leave), K(env))
+        if isinstance(st, ast.If) and not st.orelse and is_raise(st.body):
+            return "(if %s then None else\n  %s)" % (test(st.test, env), K(env))
+        if isinstance(st, ast.For) and not st.orelse and isinstance(st.target, ast.Name) and ast.unparse(st.iter) == "self.networks" \
+                and len(st.body) == 1 and isinstance(st.body[0], ast.If) and not st.body[0].orelse and is_raise(st.body[0].body):
+            env2 = dict(env); env2[st.target.id] = ("(fst nk)", "key")
+            return "(if existsb (fun nk => %s) (s_nets st) then None else\n  %s)" % (test(st.body[0].test, env2), K(env))
+        if isinstance(st, ast.Assign) and len(st.targets) == 1:
+            tgt = st.targets[0]
+            if isinstance(tgt, ast.Subscript) and isinstance(tgt.value, ast.Name) and ast.unparse(st.value) == "self.unitary_dict":
+                if not env.get("#u"):
+                    raise Untranslatable("self.unitary_dict read outside the hasattr guard")
+                return bind(env, tgt.value.id, "(dict_set %s u %s)" % (key(tgt.slice, env), dct(tgt.value, env)), K)
+            if isinstance(tgt, ast.Name) and src.split(" = ", 1)[1] == "{net: getattr(self, net).state_dict() for net in self.networks}":
+                return bind(env, tgt.id, "(map (fun nk => (fst nk, FNet (n_params (snd nk)))) (s_nets st))", K)
+        if isinstance(st, ast.Expr) and isinstance(st.value, ast.Call) and isinstance(st.value.func, ast.Attribute) and st.value.func.attr == "update" \
+                and isinstance(st.value.func.value, ast.Name):
+            c = st.value
+            arg = None
+            if len(c.args) == 1 and not c.keywords:
+                arg = c.args[0]
+            elif not c.args and len(c.keywords) == 1 and c.keywords[0].arg is None:
+                arg = c.keywords[0].value
+            if arg is not None:
+                return bind(env, c.func.value.id, "(dict_update %s %s)" % (dct(c.func.value, env), dct(arg, env)), K)
+        if isinstance(st, ast.Expr) and isinstance(st.value, ast.Call) and ast.unparse(st.value.func) == "torch.save" \
+                and len(st.value.args) == 2 and not st.value.keywords and ast.unparse(st.value.args[1]) == "location":
+            if rest or env.get("#u"):
+                raise Untranslatable("torch.save is not the last statement of save")
+            return "Some %s" % dct(st.value.args[0], env)
+        raise Untranslatable("statement of save outside the supported subset: %s" % src[:90])
+
+    env0 = {"metadata": ("md0", "raw")}
+    return block(list(fn.body), env0)
+
+
 # --------------------------------------------------------------------------- control skeleton of fit (C12)
 EVENT_KINDS = {"on_train_start": ("KTrainStart", 0), "on_epoch_start": ("KEpochStart", 1), "on_batch_start": ("KBatchStart", 2),
                "on_batch_end": ("KBatchEnd", 2), "on_epoch_end": ("KEpochEnd", 1), "on_train_end": ("KTrainEnd", 0)}
@@ -1416,6 +1524,8 @@ def translate_kernel(repo, spec):
         raise Untranslatable("function %s not found in %s" % (spec["func"], spec["file"]))
     if spec.get("kind") == "gibbs-skeleton":
         return "Definition gen_%s : list gstep :=\n  %s." % (spec["name"], extract_gibbs_skeleton(class_functions(tree, spec["func"]), fn)), "list gstep"
+    if spec.get("kind") == "save-dataflow":
+        return "Definition gen_%s (st : state) (md0 : option (list (key * val))) : option fcontent :=\n  %s." % (spec["name"], extract_save_dataflow(fn)), "option fcontent"
     if spec.get("kind") == "fit-skeleton":
         return "Definition gen_%s : skel :=\n  %s." % (spec["name"], extract_fit_skeleton(fn)), "skel"
     if spec.get("pairwise_swap"):
